@@ -152,7 +152,7 @@ def splice(fn_text, fspec, loops):
         for st in ent.split(';'):
             st = st.strip()
             if st and not re.match(r'^g\w*\s*(=|\+=|\+\+)', st): raise Broken('%s: ghost statement may only assign g* variables: %s' % (fspec.name, st))
-        t = t.replace('/*@ENTRY@*/', ent.rstrip('\n'), 1)
+        t = t.replace('/*@ENTRY@*/', (NOWRAP_PUSH + ent.rstrip('\n') + NOWRAP_POP) if ent.strip() else '', 1)
         for where, txt in fspec.ghost.items():
             if where == 'entry': continue
             m = re.match(r'(before-loop|after-loop|body-begin) (\d+)$', where)
@@ -162,7 +162,7 @@ def splice(fn_text, fspec, loops):
             for st in txt.split(';'):
                 st = st.strip()
                 if st and not re.match(r'^g\w*\s*(=|\+=|\+\+)', st): raise Broken('%s: ghost statement may only assign g* variables: %s' % (fspec.name, st))
-            t = t.replace(mark, txt.rstrip('\n'), 1)
+            t = t.replace(mark, NOWRAP_PUSH + txt.rstrip('\n') + NOWRAP_POP, 1)
     else:
         t = t.replace('/*@ENTRY@*/', '', 1)
     t = re.sub(r'/\*@(BEFORELOOP|AFTERLOOP|BODYBEGIN) \d+@\*/\n?', '', t)
@@ -248,6 +248,16 @@ def assemble(sess, sp, proof):
         a.functions.append(dict(function=cn, tu=tu, source=f, line=r['line'], byte_range=[bo, eo], sha256=h, loops=r['loops'],
                                 rules=r['rules'], role='enforced' if cn == proof.enforce else ('auto-inlined helper' if cn in a.auto_bodies else 'body')))
     body_names = set(b[0] for b in bodies)
+    # globals of the translation unit that only the contracts / harness mention (e.g. a static data member a postcondition talks about)
+    spec_text = (proof.harness or '') + proof.extra + ''.join(sp.functions[c].contract for c in ([proof.enforce] if proof.enforce else []) + list(proof.replace) if c in sp.functions)
+    decl_text = '\n'.join(d for d, _ in sp.decls)
+    # a function of the unit that the enforced contract / harness names (e.g. compares a function pointer with) and that the proof
+    # lists under @replace gets its prototype and contract even when the current code no longer refers to it
+    calls |= set(re.findall(r'\b[A-Za-z_]\w*\b', spec_text)) & set(main_unit.fn) & set(proof.replace)
+    for g in set(re.findall(r'\b[A-Za-z_]\w*\b', spec_text + decl_text)) & set(main_unit.prelude.globals):
+        if g in globs: continue
+        if re.search(r'^[^#\n]*(?:\w\s+\**|\*)%s\s*(?:;|=[^=]|,|\[)' % re.escape(g), decl_text, re.M): continue    # the spec declares its own variable of that name
+        globs[g] = main_unit
     out = [cxx2c.C_PRELUDE, main_unit.types]
     # globals (R14 / R15)
     seams = set(); gl_first = []; gl_init = []
